@@ -301,11 +301,55 @@ impl Node {
     }
 }
 
-fn did_open(file: &str, text: &str) -> Value {
-    json!({"textDocument": {"uri": uri(file), "languageId": "asm", "version": 0, "text": text}})
+fn did_open(file: &str, text: &str, version: i64) -> Value {
+    json!({"textDocument": {"uri": uri(file), "languageId": "asm", "version": version, "text": text}})
 }
-fn did_change(file: &str, text: &str) -> Value {
-    json!({"textDocument": {"uri": uri(file), "version": 1}, "contentChanges": [{"text": text}]})
+fn did_change(file: &str, text: &str, version: i64) -> Value {
+    json!({"textDocument": {"uri": uri(file), "version": version}, "contentChanges": [{"text": text}]})
+}
+
+/// How the simulated editor numbers document versions (all legal under the LSP specification,
+/// which only orders versions within one open..close session of a document).
+struct Versions {
+    policy: u64,
+    global: i64,
+    per_file: BTreeMap<String, i64>,
+}
+
+impl Versions {
+    fn new(entropy_seed: u64) -> Versions {
+        Versions { policy: rng::derive(entropy_seed, "lsp.versions", 0) % 3, global: 0, per_file: BTreeMap::new() }
+    }
+    fn open(&mut self, file: &str) -> i64 {
+        match self.policy {
+            // constant numbers, as the repository's own tests send them
+            0 => 0,
+            // restart at 1 for every session of a document (VS Code)
+            1 => {
+                self.per_file.insert(file.to_string(), 1);
+                1
+            }
+            // one counter for the whole life of the client
+            _ => {
+                self.global += 1;
+                self.global
+            }
+        }
+    }
+    fn change(&mut self, file: &str) -> i64 {
+        match self.policy {
+            0 => 1,
+            1 => {
+                let v = self.per_file.entry(file.to_string()).or_insert(1);
+                *v += 1;
+                *v
+            }
+            _ => {
+                self.global += 1;
+                self.global
+            }
+        }
+    }
 }
 fn did_close(file: &str) -> Value {
     json!({"textDocument": {"uri": uri(file)}})
@@ -545,7 +589,7 @@ fn fresh_node(world: &World, stats: &mut RunStats) -> Result<Node, Crash> {
     let mut f = Node::new()?;
     for file in &world.open_order {
         if let Some(t) = world.buffers.get(file) {
-            f.notify("textDocument/didOpen", did_open(file, t))?;
+            f.notify("textDocument/didOpen", did_open(file, t, 1))?;
         }
     }
     Ok(f)
@@ -647,6 +691,7 @@ fn execute_inner(h: &History, seed_checks: usize, stats: &mut RunStats) -> Optio
     let mut last_digest = 0u64;
     let mut trace = 0xcbf2_9ce4_8422_2325u64;
     let mut seen_errors = false;
+    let mut versions = Versions::new(h.entropy_seed);
     for (i, ev) in h.events.iter().enumerate() {
         stats.events += 1;
         *stats.kinds.entry(ev.kind_name()).or_insert(0) += 1;
@@ -668,7 +713,10 @@ fn execute_inner(h: &History, seed_checks: usize, stats: &mut RunStats) -> Optio
                     world.open_order.push(file.clone());
                 }
                 world.buffers.insert(file.clone(), text.clone());
-                long.notify(&method, did_open(file, text)).map(|_| None)
+                {
+                    let v = versions.open(file);
+                    long.notify(&method, did_open(file, text, v)).map(|_| None)
+                }
             }
             Ev::Change { file, text } => {
                 method = "textDocument/didChange".into();
@@ -677,7 +725,10 @@ fn execute_inner(h: &History, seed_checks: usize, stats: &mut RunStats) -> Optio
                     world.open_order.push(file.clone());
                 }
                 world.buffers.insert(file.clone(), text.clone());
-                long.notify(&method, did_change(file, text)).map(|_| None)
+                {
+                    let v = versions.change(file);
+                    long.notify(&method, did_change(file, text, v)).map(|_| None)
+                }
             }
             Ev::Close { file } => {
                 method = "textDocument/didClose".into();
